@@ -360,7 +360,7 @@ func c14EnterDir(fields []string) (leave func(), err error) {
 	if d.err != nil {
 		return nil, d.err
 	}
-	if len(d.made) > 5000 {
+	if len(d.made) > 3000 {
 		for n := range d.made {
 			os.Remove(filepath.Join(d.path, n))
 		}
@@ -368,7 +368,9 @@ func c14EnterDir(fields []string) (leave func(), err error) {
 	}
 	for _, f := range fields {
 		n := strings.ReplaceAll(f, `\`, "")
-		if n == "" || n == "." || n == ".." || len(n) > 200 || strings.ContainsAny(n, "/\x00") || d.made[n] {
+		// (short names only: the longer fields of the sampled words would make
+		// this a test of the file system)
+		if n == "" || n == "." || n == ".." || len(n) > 3 || strings.ContainsAny(n, "/\x00") || d.made[n] {
 			continue
 		}
 		if os.WriteFile(filepath.Join(d.path, n), nil, 0o644) == nil {
